@@ -15,10 +15,13 @@ package main
 // Oracles (independent of the model)
 //   C13: expected version = max(C ∩ advertised) computed here from the two configured sets / the scripted
 //        list; fallback 1.0 iff "operation not supported" and 1.0 ∈ C; enforced ⇒ no exchange; adopted ∈ C;
-//        header version of later requests (client and clone), as decoded by the server side, = Version().
+//        header version of EVERY later request (client, after a reconnection, clones, clones of clones; also
+//        every request of engine resp), as decoded by the server side, = the adopted version.
+//        A Dial that runs into the harness deadline is retried and never reported as a violation.
 //   C12: no panic; success only for a conforming response and only with the Go type registered for the
 //        requested operation; a non-successful item yields an error whose text holds status, reason and
-//        message.
+//        message (renderings of the LIVE registry; no dependence on the wording or on errors.Join).
+//   See also client_signer.go (Signer / Sign) and client_builders.go (every fluent builder).
 
 import (
 	"context"
@@ -450,6 +453,18 @@ func (e *cliEndpoint) takeSeen() []cliSeen {
 	return s
 }
 
+// killConns closes every server-side connection: the clients' connections die (EOF), the endpoint keeps
+// accepting new ones.
+func (e *cliEndpoint) killConns() {
+	e.mu.Lock()
+	conns := e.conns
+	e.conns = nil
+	e.mu.Unlock()
+	for _, c := range conns {
+		_ = c.Close()
+	}
+}
+
 // shutdown closes every server-side connection and waits for the serving goroutines.
 func (e *cliEndpoint) shutdown(ctx *Ctx) {
 	e.mu.Lock()
@@ -712,10 +727,32 @@ func cliViolate(ctx *Ctx, prop, oracle, key, detail, line string) {
 	ctx.Res.Count("violation-key=" + key)
 }
 
+// runNegoCase evaluates one case. A Dial that runs into the harness's own deadline says nothing about the
+// property (a loaded machine): the case is evaluated again with a long deadline, and a second expiry is
+// reported as a harness failure, never as a C13 violation.
 func runNegoCase(ctx *Ctx, nc negoCase) {
+	if runNegoCaseOnce(ctx, nc, 5*time.Second) {
+		ctx.Res.Count("nego.dial-deadline-retried")
+		if runNegoCaseOnce(ctx, nc, 90*time.Second) {
+			ctx.Res.Fail("nego: Dial did not return within 90 s (harness deadline) at: " + ctx.current)
+		}
+	}
+}
+
+func runNegoCaseOnce(ctx *Ctx, nc negoCase, dialTimeout time.Duration) (deadline bool) {
 	ep := &cliEndpoint{}
 	obs := &cliObs{}
 	var srv string
+	var srvMu sync.Mutex
+	var lateAnswer *cliRT // set after Dial: the answer a LATER DiscoverVersions request gets
+	late := func(req *kmip.RequestMessage) *kmip.ResponseMessage {
+		srvMu.Lock()
+		defer srvMu.Unlock()
+		if lateAnswer != nil && len(req.BatchItem) == 1 && req.BatchItem[0].Operation == kmip.OperationDiscoverVersions {
+			return lateAnswer.concrete(req.Header.ProtocolVersion)
+		}
+		return nil
+	}
 	if nc.lib {
 		exec := kmipserver.NewBatchExecutor()
 		exec.Route(kmip.OperationActivate, kmipserver.HandleFunc(func(_ context.Context, req *payloads.ActivateRequestPayload) (*payloads.ActivateResponsePayload, error) {
@@ -728,10 +765,16 @@ func runNegoCase(ctx *Ctx, nc negoCase) {
 			srv = "lib:" + cliVersStr(nc.libSet)
 		}
 		ep.setHandler(func(req *kmip.RequestMessage) *kmip.ResponseMessage {
+			if r := late(req); r != nil {
+				return r
+			}
 			return exec.HandleRequest(context.Background(), req)
 		})
 	} else {
 		script := func(req *kmip.RequestMessage) (*kmip.ResponseMessage, bool) {
+			if r := late(req); r != nil {
+				return r, true
+			}
 			if len(req.BatchItem) == 1 && req.BatchItem[0].Operation == kmip.OperationDiscoverVersions {
 				if nc.rt.fail {
 					return nil, true
@@ -761,6 +804,14 @@ func runNegoCase(ctx *Ctx, nc negoCase) {
 			})
 		}
 	}
+	afterDial := func() {
+		// from now on DiscoverVersions is answered with the LOWEST configured version only
+		low := nc.clientSet()
+		sort.Slice(low, func(i, j int) bool { return cliCmp(low[i], low[j]) < 0 })
+		srvMu.Lock()
+		lateAnswer = &cliRT{hdr: 1, items: []cliItem{{op: cliOpDiscover, pl: cliPl{kind: 'r', op: cliOpDiscover}, vers: low[:1]}}}
+		srvMu.Unlock()
+	}
 	opts := []kmipclient.Option{kmipclient.WithDialerUnsafe(ep.dialer), kmipclient.WithMiddlewares(obs.mw)}
 	for _, c := range nc.calls {
 		opts = append(opts, kmipclient.WithKmipVersions(c...))
@@ -777,12 +828,17 @@ func runNegoCase(ctx *Ctx, nc negoCase) {
 		cl  *kmipclient.Client
 		err error
 	}
-	dctx, cancel := context.WithTimeout(context.Background(), 5*time.Second)
+	dctx, cancel := context.WithTimeout(context.Background(), dialTimeout)
 	dr, pn := guard("Dial", func() dialRes {
 		cl, err := kmipclient.DialContext(dctx, "pipe", opts...)
 		return dialRes{cl, err}
 	})
+	expired := dctx.Err() != nil
 	cancel()
+	if pn == "" && dr.err != nil && (expired || errors.Is(dr.err, context.DeadlineExceeded)) {
+		ep.shutdown(ctx)
+		return true
+	}
 	events := obs.take()
 	seenDial := ep.takeSeen()
 
@@ -852,57 +908,10 @@ func runNegoCase(ctx *Ctx, nc negoCase) {
 		impl = cliErrAnswer(dr.err, rtObs.items) + " disc=" + disc
 	default:
 		adopted = true
-		cl := dr.cl
-		version = cl.Version()
-		later := func(c *kmipclient.Client) string {
-			rctx, cancel := context.WithTimeout(context.Background(), 5*time.Second)
-			defer cancel()
-			_, p := guard("Activate", func() error {
-				_, err := c.Activate("id-1").ExecContext(rctx)
-				return err
-			})
-			if p != "" {
-				cliViolate(ctx, "C12", "no-panic", "exec:panic "+panicKey(p), "Activate panicked after Dial: "+p, line)
-			}
-			seen := ep.takeSeen()
-			if len(seen) == 0 {
-				return "?"
-			}
-			s := seen[0]
-			if s.count != 1 || len(s.ops) != 1 || s.ops[0] != cliOpActivate {
-				cliViolate(ctx, "C13", "request-header", "nego:request-header-malformed", fmt.Sprintf("request after Dial: batch count %d, operations %v", s.count, s.ops), line)
-			}
-			return cliVerStr(s.version)
-		}
-		reqV := later(cl)
-		cloneV := "?"
-		cctx, ccancel := context.WithTimeout(context.Background(), 5*time.Second)
-		type cloneRes struct {
-			cl  *kmipclient.Client
-			err error
-		}
-		cr, cp := guard("Clone", func() cloneRes {
-			c2, err := cl.CloneCtx(cctx)
-			return cloneRes{c2, err}
-		})
-		ccancel()
-		if cp != "" {
-			cliViolate(ctx, "C13", "clone", "nego:clone-panics", "Clone panicked: "+cp, line)
-		} else if cr.err == nil {
-			if cr.cl.Version() != version {
-				cliViolate(ctx, "C13", "clone", "nego:clone-version-differs", fmt.Sprintf("clone.Version()=%s, client.Version()=%s", cliVerStr(cr.cl.Version()), cliVerStr(version)), line)
-			}
-			cloneV = later(cr.cl)
-			_ = cr.cl.Close()
-		}
-		_ = cl.Close()
-		impl = "ok " + cliVerStr(version) + " req=" + reqV + " clone=" + cloneV + " disc=" + disc
-		if reqV != cliVerStr(version) {
-			cliViolate(ctx, "C13", "request-header", "nego:request-header-version-differs", "a request sent after Dial carries "+reqV+" but the client adopted "+cliVerStr(version), line)
-		}
-		if cloneV != cliVerStr(version) {
-			cliViolate(ctx, "C13", "request-header", "nego:clone-request-header-version-differs", "a request sent by the clone carries "+cloneV+" but the client adopted "+cliVerStr(version), line)
-		}
+		version = dr.cl.Version()
+		// a client that negotiated again later (on a reconnection, in a clone) would now get another answer
+		afterDial()
+		impl = "ok " + cliVerStr(version) + " later=" + negoLater(ctx, ep, obs, dr.cl, version, line) + " disc=" + disc
 	}
 	ep.shutdown(ctx)
 
@@ -962,7 +971,9 @@ func runNegoCase(ctx *Ctx, nc negoCase) {
 				}
 				sort.Slice(inter, func(i, j int) bool { return cliCmp(inter[i], inter[j]) > 0 })
 				if cliVersStr(answered) != cliVersStr(inter) {
-					cliViolate(ctx, "C13", "server-answer", "nego:server-answer-not-descending-intersection", "the kmip-go server answered "+cliVersStr(answered)+", the common versions in decreasing order are "+cliVersStr(inter), line)
+					// a mechanism, not a clause of the property (the client takes the maximum whatever the
+					// order, a server may advertise more): compared with the model, not a violation
+					ctx.Res.Count("nego.note=server-answer-not-descending-intersection")
 				}
 			}
 			// the discovery request itself
@@ -972,7 +983,7 @@ func runNegoCase(ctx *Ctx, nc negoCase) {
 				sorted := append([]cliVer(nil), C...)
 				sort.Slice(sorted, func(i, j int) bool { return cliCmp(sorted[i], sorted[j]) > 0 })
 				if cliVersStr(discSeen.disc) != cliVersStr(sorted) {
-					cliViolate(ctx, "C13", "discover-request", "nego:discover-request-list", "the request lists "+cliVersStr(discSeen.disc)+", the configured set in decreasing order is "+cliVersStr(sorted), line)
+					ctx.Res.Count("nego.note=discover-request-not-the-descending-configured-set") // mechanism: see above
 				}
 			}
 		}
@@ -989,6 +1000,97 @@ func runNegoCase(ctx *Ctx, nc negoCase) {
 		ctx.Res.Count("nego.scripted.wire")
 	}
 	ctx.Res.Count("nego.result=" + strings.SplitN(impl, " ", 2)[0])
+	return false
+}
+
+// negoLater runs the fixed program of lean/Driver/Client.lean `laterProgram` on the connected client and
+// returns the requests the SERVER decoded, as <client>:<version>:<count>,… Oracle C13: every request put on
+// the wire after Dial — whichever client, before or after a reconnection — carries the adopted version.
+func negoLater(ctx *Ctx, ep *cliEndpoint, obs *cliObs, cl *kmipclient.Client, version cliVer, line string) string {
+	clients := []*kmipclient.Client{cl}
+	var out []string
+	act := func() kmip.OperationPayload { return &payloads.ActivateRequestPayload{UniqueIdentifier: "id-1"} }
+	request := func(i, n int, opts ...kmipclient.BatchOption) {
+		pls := make([]kmip.OperationPayload, n)
+		for k := range pls {
+			pls[k] = act()
+		}
+		rctx, cancel := context.WithTimeout(context.Background(), 20*time.Second)
+		_, p := guard("BatchOpt", func() error {
+			_, err := clients[i].BatchOpt(rctx, pls, opts...)
+			return err
+		})
+		expired := rctx.Err() != nil
+		cancel()
+		if p != "" {
+			cliViolate(ctx, "C12", "no-panic", "batch:panic "+panicKey(p), "BatchOpt panicked after Dial: "+p, line)
+		}
+		if expired {
+			ctx.Res.Fail("nego: a request after Dial did not return within 20 s (harness deadline) at: " + line)
+		}
+		obs.take()
+		for _, s := range ep.takeSeen() {
+			out = append(out, fmt.Sprintf("%d:%s:%d", i, cliVerStr(s.version), s.count))
+			if s.version != version {
+				cliViolate(ctx, "C13", "request-header", "nego:request-header-version-differs",
+					fmt.Sprintf("request %d after Dial (client %d, operations %s) carries %s but the client adopted %s", len(out), i, cliOpsStr(s.ops), cliVerStr(s.version), cliVerStr(version)), line)
+			}
+			if int(s.count) != len(s.ops) || len(s.ops) != n {
+				cliViolate(ctx, "C13", "request-header", "nego:request-header-malformed",
+					fmt.Sprintf("request after Dial with %d payloads: batch count %d, operations %s", n, s.count, cliOpsStr(s.ops)), line)
+			}
+			ctx.Res.Count("nego.later-request-checked")
+		}
+	}
+	clone := func(i int) {
+		cctx, cancel := context.WithTimeout(context.Background(), 20*time.Second)
+		type cloneRes struct {
+			cl  *kmipclient.Client
+			err error
+		}
+		cr, p := guard("Clone", func() cloneRes {
+			c2, err := clients[i].CloneCtx(cctx)
+			return cloneRes{c2, err}
+		})
+		cancel()
+		switch {
+		case p != "":
+			cliViolate(ctx, "C13", "clone", "nego:clone-panics", "Clone panicked: "+p, line)
+		case cr.err != nil:
+			ctx.Res.Fail("nego: Clone failed over the in-memory transport: " + cr.err.Error())
+		default:
+			if cr.cl.Version() != version {
+				cliViolate(ctx, "C13", "clone", "nego:clone-version-differs", fmt.Sprintf("clone.Version()=%s, the parent adopted %s", cliVerStr(cr.cl.Version()), cliVerStr(version)), line)
+			}
+			clients = append(clients, cr.cl)
+			return
+		}
+		clients = append(clients, clients[i])
+	}
+	request(0, 1)
+	request(0, 3, kmipclient.OnBatchErr(kmip.BatchErrorContinuationOptionStop))
+	ep.killConns() // connLost 0
+	request(0, 1)
+	clone(0)
+	request(1, 1)
+	_, _ = guard("Close", func() error { return clients[0].Close() })
+	request(0, 1) // closed: nothing is sent
+	request(1, 2)
+	clone(1)
+	ep.killConns() // connLost 1, 2
+	request(2, 1)
+	clone(0) // a clone of the closed client
+	request(3, 1)
+	if v := cl.Version(); v != version {
+		cliViolate(ctx, "C13", "request-header", "nego:version-changed-after-dial", "Version() was "+cliVerStr(version)+" after Dial and is "+cliVerStr(v)+" after the later requests", line)
+	}
+	for _, c := range clients[1:] {
+		_, _ = guard("Close", func() error { return c.Close() })
+	}
+	if len(out) == 0 {
+		return "-"
+	}
+	return strings.Join(out, ",")
 }
 
 // scriptClass says what the scripted discovery answer is, from the script alone:
@@ -1011,6 +1113,125 @@ func (nc *negoCase) scriptClass() (string, []cliVer) {
 	return "invalid", nil
 }
 
+// negoServerCase: the library's BatchExecutor alone — SetSupportedProtocolVersions called any number of times,
+// then one hand-built DiscoverVersions request (any header version, any list, the empty one included, which
+// the library's own client never sends). The answer is taken through the wire encoding, as a client gets it.
+func negoServerCase(ctx *Ctx, calls [][]cliVer, never bool, hdr cliVer, reqList []cliVer) {
+	exec := kmipserver.NewBatchExecutor()
+	cs := "!"
+	if !never {
+		nc := negoCase{calls: calls}
+		cs = nc.callsStr()
+		for _, c := range calls {
+			exec.SetSupportedProtocolVersions(c...)
+		}
+	}
+	line := "nego.server " + cs + " " + cliVerStr(hdr) + " " + cliVersStr(reqList)
+	ctx.current = line
+	req := kmip.NewRequestMessage(hdr, &payloads.DiscoverVersionsRequestPayload{ProtocolVersion: append([]cliVer(nil), reqList...)})
+	type res struct {
+		rt  cliRT
+		err error
+	}
+	r, pn := guard("HandleRequest", func() res {
+		resp := exec.HandleRequest(context.Background(), &req)
+		if resp == nil {
+			return res{cliRT{fail: true}, nil}
+		}
+		var back kmip.ResponseMessage
+		if err := ttlv.UnmarshalTTLV(ttlv.MarshalTTLV(resp), &back); err != nil {
+			return res{err: err}
+		}
+		rt, err := cliAbstract(&back, nil)
+		return res{rt, err}
+	})
+	switch {
+	case pn != "":
+		ctx.Add(line, "panic", true, "C13")
+		cliViolate(ctx, "C13", "server-answer", "nego:server-panics "+panicKey(pn), "BatchExecutor.HandleRequest panicked on a DiscoverVersions request: "+pn, line)
+		return
+	case r.err != nil:
+		ctx.Res.Fail("nego.server: " + r.err.Error())
+		return
+	}
+	ctx.Add(line, r.rt.String(), true, "C13")
+	ctx.Res.Count("nego.server")
+	if len(reqList) == 0 {
+		ctx.Res.Count("nego.server.empty-request-list")
+	}
+	if len(calls) > 1 {
+		ctx.Res.Count("nego.server.configured-several-times")
+	}
+}
+
+func negoServerReplay(ctx *Ctx, f []string) {
+	if len(f) != 4 {
+		return
+	}
+	hdr, err := cliParseVer(f[2])
+	if err != nil {
+		return
+	}
+	reqList, err := cliParseVers(f[3])
+	if err != nil {
+		return
+	}
+	if f[1] == "!" {
+		negoServerCase(ctx, nil, true, hdr, reqList)
+		return
+	}
+	var calls [][]cliVer
+	if f[1] != "-" {
+		for _, c := range strings.Split(f[1], ";") {
+			if c == "_" {
+				calls = append(calls, []cliVer{})
+				continue
+			}
+			vs, err := cliParseVers(c)
+			if err != nil {
+				return
+			}
+			calls = append(calls, vs)
+		}
+	}
+	negoServerCase(ctx, calls, false, hdr, reqList)
+}
+
+func runNegoServerCases(ctx *Ctx) {
+	r := ctx.R
+	foreign := []cliVer{cliV(2, 0), cliV(1, 5), cliV(0, 9), cliV(1, -1)}
+	hdrs := append(append([]cliVer(nil), cliStdVersions...), foreign[0], foreign[2])
+	for sm := 0; sm < 32; sm++ {
+		set := cliShuffle(r, cliSubset(sm))
+		for _, hdr := range hdrs {
+			// the empty list, the full list, a random sub-list, with foreign versions and duplicates
+			negoServerCase(ctx, [][]cliVer{set}, false, hdr, nil)
+			negoServerCase(ctx, [][]cliVer{set}, false, hdr, cliShuffle(r, cliStdVersions))
+			sub := cliShuffle(r, cliSubset(r.Intn(32)))
+			negoServerCase(ctx, [][]cliVer{set}, false, hdr, sub)
+			negoServerCase(ctx, [][]cliVer{set}, false, hdr, cliShuffle(r, append(append(append([]cliVer(nil), sub...), sub...), rng.Pick(r, foreign))))
+		}
+		// configured several times: the last call wins, a call without argument restores the default list
+		other := cliShuffle(r, cliSubset(r.Intn(32)))
+		for _, calls := range [][][]cliVer{{other, set}, {set, {}}, {{}, set}, {set, other, set}, {other, append(append([]cliVer(nil), set...), foreign[0])}} {
+			hdr := rng.Pick(r, hdrs)
+			negoServerCase(ctx, calls, false, hdr, nil)
+			negoServerCase(ctx, calls, false, hdr, cliShuffle(r, cliSubset(1+r.Intn(31))))
+			negoServerCase(ctx, calls, false, kmip.V1_1, cliShuffle(r, cliStdVersions))
+		}
+	}
+	for _, hdr := range hdrs {
+		negoServerCase(ctx, nil, true, hdr, nil)
+		negoServerCase(ctx, nil, true, hdr, cliShuffle(r, cliSubset(1+r.Intn(31))))
+		negoServerCase(ctx, nil, false, hdr, nil) // `-`: no call at all, written as an empty call list
+	}
+	for _, k := range []string{"nego.server.empty-request-list", "nego.server.configured-several-times"} {
+		if ctx.Res.Distribution[k] == 0 {
+			ctx.Res.Fail("nego: input class never exercised: " + k)
+		}
+	}
+}
+
 func cliSplitCalls(r *rng.R, vs []cliVer) [][]cliVer {
 	vs = cliShuffle(r, vs)
 	switch r.Intn(4) {
@@ -1027,6 +1248,10 @@ func cliSplitCalls(r *rng.R, vs []cliVer) [][]cliVer {
 
 func negoReplay(ctx *Ctx, l string) {
 	f := strings.Fields(l)
+	if len(f) == 4 && f[0] == "nego.server" {
+		negoServerReplay(ctx, f)
+		return
+	}
 	if len(f) != 4 || f[0] != "nego.adopt" {
 		return
 	}
@@ -1103,6 +1328,7 @@ func runNego(ctx *Ctx) {
 	}
 	r := ctx.R
 	extra := []cliVer{cliV(2, 0), cliV(1, 5), cliV(0, 9), cliV(1, -1)}
+	runNegoServerCases(ctx)
 	// (a) the library's own server: every non-empty client subset x every server subset
 	for cm := 1; cm < 32; cm++ {
 		for sm := 0; sm < 32; sm++ {
@@ -1150,6 +1376,23 @@ func runNego(ctx *Ctx) {
 		}
 	}
 	clientSets = append(clientSets, nil, []cliVer{cliV(2, 0), kmip.V1_2}, []cliVer{cliV(0, 9), kmip.V1_0, cliV(1, 5)})
+	// versions whose order is NOT the order of their minor numbers, nor of unsigned components
+	oddSets := [][]cliVer{
+		{cliV(2, 0), kmip.V1_4, kmip.V1_0}, {cliV(0, 9), kmip.V1_1}, {cliV(1, -1), kmip.V1_0, cliV(2, -3)},
+		{cliV(2, 1), cliV(2, 0), cliV(10, 0)}, {cliV(-1, 7), cliV(0, 0), kmip.V1_3}, {cliV(3, 0), cliV(2, 9), cliV(1, 9)},
+	}
+	for _, c := range oddSets {
+		pool := append(append(append([]cliVer(nil), c...), extra...), kmip.V1_0, kmip.V1_2, kmip.V1_4)
+		for k := 0; k < ctx.N(40, 400); k++ {
+			var a []cliVer
+			for m := r.Intn(6); m > 0; m-- {
+				a = append(a, rng.Pick(r, pool))
+			}
+			rt := cliRT{hdr: 1, items: []cliItem{{op: cliOpDiscover, pl: cliPl{kind: 'r', op: cliOpDiscover}, vers: a}}}
+			runNegoCase(ctx, negoCase{calls: cliSplitCalls(r, c), rt: rt, inject: k%2 == 1})
+			ctx.Res.Count("nego.odd-version-sets")
+		}
+	}
 	for _, c := range clientSets {
 		var scripts []cliRT
 		// answered lists: every subset of 1.0..1.4 in some order, with foreign versions, duplicates
@@ -2051,12 +2294,12 @@ func runResp(ctx *Ctx) {
 func init() {
 	register(&Engine{
 		Name: "nego",
-		Rule: "every non-empty subset of {1.0..1.4} on the client x every subset on a real kmipserver.BatchExecutor (31 x 32, argument order shuffled, configuration also spelled with several WithKmipVersions calls and duplicates, server never configured, default client) x {not enforced, enforced}; scripted servers over net.Pipe and in-process: DiscoverVersions answered with every subset in random order, with versions not offered and duplicates, empty, OperationNotSupported, other failures, wrong counts, missing / foreign / opaque payload, closed connection; observed: Version(), header version of later requests of the client and of its clone as decoded by the server; distinct = distinct line",
+		Rule: "every non-empty subset of {1.0..1.4} on the client x every subset on a real kmipserver.BatchExecutor (31 x 32, argument order shuffled, configuration also spelled with several WithKmipVersions calls and duplicates, server never configured, default client) x {not enforced, enforced}; scripted servers over net.Pipe and in-process: DiscoverVersions answered with every subset in random order, with versions not offered and duplicates, empty, OperationNotSupported, other failures, wrong counts, missing / foreign / opaque payload, closed connection; client sets and answers with major versions other than 1 and negative components; after every successful Dial a fixed program: single request, batch of 3 with OnBatchErr, connection killed + request (reconnect), clone + request, Close + request, batch of 2 on the clone, clone of the clone with all connections killed, clone of the closed client — while the server would answer a renewed DiscoverVersions differently; observed: Version() and the header (version, count) of every request as decoded by the server; the BatchExecutor alone: SetSupportedProtocolVersions called 0..3 times, hand-built DiscoverVersions requests with header 1.0..1.4 / 2.0 / 0.9 and the empty, full, partial, duplicated, foreign lists, answer taken through the wire encoding; distinct = distinct line",
 		Run:  runNego,
 	})
 	register(&Engine{
 		Name: "resp",
 		Run:  runResp,
-		Rule: "abstract response shapes: header count in {0,1,2,-1} x item count in {0,1,2,3} x per item operation in {requested, other registered, unknown code, 0} x status in {Success, Failed, Pending, Undone, 7} x reason in {0, registered, unknown} x payload in {none, response type of the requested operation, of another operation, UnknownPayload, request type (in-process only)}; one-item shapes exhaustively, larger ones sampled (two-item shapes exhaustively for the two-operation batch in the thorough tier); for Activate/Get/Destroy typed Exec, Request (registered and unregistered operation), Batch, Then-chain, BatchOpt, and the discovery exchange of Dial; each shape both sent over net.Pipe by a scripted server and fabricated by a client middleware; registries swept 0..0x120; distinct = distinct line",
+		Rule: "abstract response shapes: header count in {0,1,2,-1} (plus, on conforming items, n+-256, n+-65536, n+-2^31, 2^31-1, -2^31, 3, 5, 255, 257) x item count in {0,1,2,3,5,6,7} x per item operation in {requested, other registered, unknown code, 0} x status in {Success, Failed, Pending, Undone, 7} x reason in {0, registered, unknown} x payload in {none, response type of the requested operation, of another operation, UnknownPayload, request type (in-process only)}; one-item shapes exhaustively, larger ones sampled (two-item shapes exhaustively for the two-operation batch in the thorough tier; batches of 6 conforming except at one or two random positions, every position covered); for Activate/Get/Destroy typed Exec, Request (registered and unregistered operation), Batch, Then-chain, BatchOpt, EVERY fluent builder of *kmipclient.Client found by reflection (in-process, one-item shapes exhaustively), the composite Signer/Sign helper (scripted 3-5 exchange servers: announced algorithm x key material kind x id mode, every exchange position x every non-conforming answer, attribute variations incl. values of foreign Go types in-process, caller options, signature lengths, random combinations) and the discovery exchange of Dial; clients enforcing 1.4, 1.0 and 1.2; each shape both sent over net.Pipe by a scripted server and fabricated by a client middleware; a server answering with a request message; the header of every request sent is checked (C13); registries swept 0..0x120; distinct = distinct line",
 	})
 }
